@@ -8,3 +8,58 @@ def run(ctx):
     m = importlib.util.module_from_spec(sp)
     sp.loader.exec_module(m)
     m.run_filtered(ctx, "C40")
+
+    wrappers(ctx)
+
+
+D = "mfront/include/MFront/GenericBehaviour/"
+INNER = {"name": "inner mfront::gb::integrate<Behaviour>(...) -> contract stub", "re": r"mfront::gb::integrate<Behaviour>\(\s*d,[^;]*\)", "sub": "inner_integrate()", "min": 1, "max": 1}
+RESTORE = {"name": "restoration of the caller's buffers (pointer assignments)", "re": r"d\.(?:s0|s1)\.(?:gradients|thermodynamic_forces) = \w+_old;|d\.K = K_old;", "sub": "RESTORE_BUFFERS;", "min": 2}
+TYPED = {"name": "typed result", "re": r"const auto r =", "sub": "const int r =", "min": 1, "max": 1}
+NOCPP = {"name": "no unmapped C++ may remain", "forbid": r"tfel::|std::|convert<|View<|\bauto\b|d\.s1"}
+
+
+def wrappers(ctx):
+    """The three finite-strain wrappers of the generic interface: what they do after the inner integration."""
+    from engines.cbmcc.run import Job, run_jobs
+    from engines import replay as R
+    ctx.assume("finite-strain wrappers: only the text from the inner mfront::gb::integrate call to the end of the function is under contract; what precedes it (conversion of the inputs, switch of d.s0/d.s1/d.K to local buffers: for every stress measure in the strain-measure wrappers, for non-Cauchy measures in the standard wrapper) is summarised by the stub of the inner call; the long conversion blocks are abstracted by one ghost write into the caller's buffer, possibly preceded by an error return")
+    std_rules = [
+        {"name": "text before the inner call dropped (summarised by the stub)", "re": r"^\{.*?(?=const auto r = mfront::gb::integrate<Behaviour>)", "sub": "{ ", "min": 1, "max": 1},
+        INNER, TYPED, RESTORE,
+        {"name": "stress measure enumerators", "re": r"StressMeasure::", "sub": "StressMeasure_", "min": 1},
+        {"name": "conversion of the Cauchy stress into the caller's stress measure", "block_body": r"if \(\(r[^{]*\) && \(sm != StressMeasure_CAUCHY\)\) \{", "body": "CONVERT_STRESS_INTO_CALLER_S1;", "min": 1, "max": 1},
+        NOCPP]
+    strain_rules = [
+        {"name": "text before the decoding of the request dropped (summarised by the stub)", "re": r"^\{.*?(?=const auto (?:Ke|bp) =)", "sub": "{ ", "min": 1, "max": 1},
+        {"name": "typed request value (shadows the harness variable: the decoding is under test)", "re": r"const auto Ke =", "sub": "const real Ke =", "max": 1},
+        {"name": "typed flags", "re": r"const auto (bp|bk) =", "sub": r"const int \1 =", "min": 2, "max": 2},
+        INNER, TYPED, RESTORE,
+        {"name": "prediction branch: conversion of the operator only", "block_body": r"if \(bp\) \{", "body": "CONVERT_OPERATOR_INTO_CALLER_K;", "min": 1, "max": 1},
+        {"name": "integration branch: conversion of the stress, then of the operator if requested", "block_body": r"CONVERT_OPERATOR_INTO_CALLER_K; \} else \{", "body": "CONVERT_STRESS_INTO_CALLER_S1; if (bk) { CONVERT_OPERATOR_INTO_CALLER_K; }", "min": 1, "max": 1},
+        NOCPP]
+    tpl = os.path.join(ctx.spec_dir, "wrappers.c.in")
+    jobs = []
+    for name, f, pat, rules, defs in (
+            ("finite_strain_integrate", D + "StandardFiniteStrainBehaviourIntegrate.hxx", r"int integrate\(mfront_gb_BehaviourData& d,\s*const tfel::material::OutOfBoundsPolicy p\)", std_rules, ["STANDARD"]),
+            ("green_lagrange_strain_integrate", D + "GreenLagrangeStrainIntegrate.hxx", r"int integrate\(mfront_gb_BehaviourData& d,\s*const tfel::material::OutOfBoundsPolicy p\)", strain_rules, []),
+            ("logarithmic_strain_integrate", D + "LogarithmicStrainIntegrate.hxx", r"int integrate\(mfront_gb_BehaviourData& d,\s*const tfel::material::OutOfBoundsPolicy p\)", strain_rules, [])):
+        jobs.append(Job(name, tpl, bodies=[dict(name="tail", file=f, pattern=pat, rules=rules)], enforce="wrapper_tail", harness="h_wrapper_tail", defines=defs, min_obligations=4))
+
+    def replay(ctx2, job, ob):
+        srcs = ["src/Exception/ContractViolation.cxx", "src/Exception/TFELException.cxx", "src/Utilities/GenTypeCastError.cxx"]
+        if job.name == "finite_strain_integrate":
+            prog, cases = "C40_fs.cxx", (["ok", "0.5"], ["fail", "1"], ["ok", "1"])
+        elif job.name == "green_lagrange_strain_integrate":
+            prog, cases = "C39_gl.cxx", (["ok", "0.5", "0"], ["fail", "1", "0"], ["ok", "1", "99"], ["ok", "1", "-1"], ["ok", "1", "104"])
+        else:
+            return None  # the logarithmic strain wrapper has the same text; no mock for the Hencky handler
+        bad = False
+        outs = []
+        for args in cases:
+            ok, out = R.native(ctx2, prog, args, extra_flags="-w -I%s/mfront/include" % ctx2.repo, extra_src=srcs)
+            outs.append(out.strip().replace("\n", " ; "))
+            bad = bad or bool(ok)
+        ob.detail += " | native replay (mock behaviour, PK2 stress measure): " + " || ".join(o for o in outs if "NOT-REPRODUCED" not in o)[-500:]
+        return bad
+    run_jobs(ctx, jobs, replay_fn=replay)
